@@ -131,7 +131,7 @@ def run(ctx):
         ctx.violation('construction', 'every DirectionalVariogram(...) raises %s: %s' % (type(err).__name__, err),
                       dict(note='any input'), signature=dict(kind='construction'))
         return
-    for k in range(ctx.n(30, 300)):
+    for k in range(ctx.n(60, 500)):
         case = c12.gen(ctx)
         if isinstance(case['bandwidth'], str):
             case['bandwidth'] = float(np.percentile(__import__('scipy.spatial.distance', fromlist=['pdist']).pdist(
